@@ -84,17 +84,22 @@ def run(ck, F, E):
     # ---- listing shape
     lb = get_fn(ck, F, "ProgramLines::list")
     if lb is not None:
+        from lib import with_closures
         tpl = None
-        for c in lb.calls():
-            if c.callee.endswith("Arguments::new"):
-                for a in c.args:
-                    e = strip_refs(lb.expr(a))
-                    if e[0] == "const" and e[1].get("text", "").startswith('b"'):
-                        tpl = tables.fmt_template(e[1]["text"])
+        ok = False
+        for bd in with_closures(F, lb):      # the per-line body may be a closure (`.map(|(n, tokens)| ..)`)
+            for c in bd.calls():
+                if c.callee.endswith("Arguments::new"):
+                    for a in c.args:
+                        e = strip_refs(bd.expr(a))
+                        if e[0] == "const" and e[1].get("text", "").startswith('b"'):
+                            t_ = tables.fmt_template(e[1]["text"])
+                            if tpl is None or t_ == [None, " ", None, "\n"]:
+                                tpl = t_
+                if c.callee.endswith("::join") and any(expr_const_str(bd.expr(a)) == " " for a in c.args):
+                    ok = True
         ck.require(tpl == [None, " ", None, "\n"], "C14:SHAPE:line-format", "listing shape",
                    "a listed line is `{number} {tokens}\\n`", "the listing format is %r" % tpl, lb.span)
-        joins = [c for c in lb.calls() if c.callee.endswith("::join")]
-        ok = any(any(expr_const_str(lb.expr(a)) == " " for a in c.args) for c in joins)
         ck.require(ok, "C14:SHAPE:join-blank", "listing shape", "tokens are joined by one blank", "tokens are not joined by a single blank", lb.span)
     # ---- the line number written by the listing ends at the blank that follows it
     line_number_shape(ck, F)
@@ -160,7 +165,7 @@ def line_number_shape(ck, F):
     ok = bool(ps)
     for c in ps:
         cs = [x[1].split("::")[-1] for x in expr_calls(b.expr(c.args[0]))]
-        if any(x not in ("as_ref", "index", "deref", "get", "get_unchecked") for x in cs):
+        if any(x not in ("as_ref", "index", "deref", "get", "get_unchecked", "branch", "into_iter", "next", "char_indices", "is_ascii_digit") for x in cs):
             ok = False
     ck.require(ok, "C14:SHAPE:line-number-is-contiguous-slice", "listing shape",
                "the converted text is a slice of the line", "parse_line_number converts a rebuilt string, not the slice of the line it scanned",
